@@ -1,5 +1,5 @@
 (* C14 correspondence cases: input together with what the implementation answered *)
-From FB Require Export C14.Model Base.Run.
+From FB Require Export C14.Model C14.Model2 Base.Run.
 
 Definition kind_eqb (a b : nkind) : bool :=
   match a, b with KAnon, KAnon | KInner, KInner | KLocal, KLocal => true | _, _ => false end.
@@ -31,7 +31,15 @@ Inductive case :=
 | CMapNests (T : table) (M : mappings) (r : res table)         (* remap_nests, IndexMap order *)
 | CRead (text : str) (r : res table)                           (* Nests::read *)
 | CStrip (s : str) (r : str)                                   (* strip_local_class_prefix as seen in InnerClasses *)
-| CJar (remap : bool) (J : jar) (T : table) (r : res (list out_class)).
+| CJar (remap : bool) (J : jar) (T : table) (r : res (list out_class))
+| CAnon (s : str) (nested : bool)
+  (* the anonymous rule alone: a two-class jar {A, B}, B listed as anonymous in A with inner name s;
+     nested = nest_jar recorded an InnerClasses entry for B *)
+| CAnyClass (J : jar) (T : table) (asks answers : list str)
+  (* the remapper nest_jar hands to dukebox::remap, observed through the class constants of a probe
+     class (checkcast / anewarray operands: object names, array names, primitive arrays, unlisted
+     classes) after nest_jar(remap = true) *)
+| CLiteral (T : table) (ok : bool).
   (* nest_jar: per output class (entry order) its name, the InnerClasses entry appended for it and
      its EnclosingMethod, as read back by the independent class-file parser *)
 
@@ -43,4 +51,13 @@ Definition check (c : case) : bool :=
   | CRead text r => res_eqb table_eqb (read_nests text) r
   | CStrip s r => str_eqb (strip_local_class_prefix s) r
   | CJar rm J T r => res_eqb (list_eqb out_class_eqb) (nest_jar rm J T) r
+  | CAnon s nested => Bool.eqb (anon_index_ok s) nested && Bool.eqb (anon_rule s) nested
+  | CAnyClass J T asks answers =>
+      match jar_remapper J T with
+      | Ok r => list_eqb (res_eqb str_eqb) (map (jr_class_any r) asks) (map (fun a => Ok a) answers)
+      | Err => false
+      end
+  | CLiteral T ok =>
+      (* the literal depth-counter transcription against what MyRemapper::new answered (undo on empty mappings) *)
+      Bool.eqb (is_ok (translation_lit (length T + 2) T)) ok && Bool.eqb (is_ok (translation T)) ok
   end.
